@@ -12,7 +12,7 @@ sweep  : the property's own quantifier (all strings <= 5 / 6 over a 40-symbol al
 traces : random strings up to 200 characters over a wider alphabet.
 """
 import json, os, random
-import vlib, lang
+import vlib, ugen, lang
 from vlib import tlc, expect_holds, ToolError
 
 LEVEL = "model_checking"
@@ -105,7 +105,31 @@ def run(chk):
         rs += ["\ufeff" + "1" * n, "(" * n, "(" * n + "1" + ")" * n, "f(" * n + "1" + ")" * n, ")" * n, "{" * n, "1" + " + 1" * n, "1" + "^2" * min(n, 40), "-" * n, "." * n,
                "1" * n, " " * n, "a " * n, "é" * n, "(1 + " * n + "1" + ")" * n, "1e" * n, "{a " * n, "round(" * n + "1.5" + ", 0)" * n,
                "1 to m " * min(n, 100), "%" * n, "," * n, "((" * (n // 2) + ")" * n]
-    rs += ["\ufeff1 + 2", "\ufeff", "\ufeff ", "1\ufeff2", "2e+", "1E-x", "7e- 3", "-e+ 1", ".5e+", " (", " 1 to", "\t{", " f(", " 2 * (", "\u00a0(("]
+    # well-formed expressions: random characters almost never form the operator chains, calls and unit expressions on
+    # which the parser's precedence stack, checkpoints and unit loop do their work
+    ug = ugen.UnitGen(ugen.Vocab(), rnd, maxpow=3)
+    for _ in range(p["random"] // 3):
+        c = rnd.random()
+        if c < 0.5:
+            rs.append(lang.gen_numeric(rnd, rnd.randint(2, 5), maxdigits=3, budget=200, maxops=12))
+        elif c < 0.8:
+            ops = [rnd.choice(["+", "-", "*", "/", "^", "**", " to ", " + ", " * ", " ^ "]) for _ in range(rnd.randint(3, 8))]
+            # at most four powers in one chain: (((x^12)^12)^12)^12 is still computed in an instant, two levels more are not
+            seen = 0
+            for k, o in enumerate(ops):
+                if "^" in o or "**" in o:
+                    seen += 1
+                    if seen > 4:
+                        ops[k] = "*"
+            atoms = [rnd.choice(["a", "b", "1", "2.5", "x y", "(1)", "f(2)", "3m", "1e1", "{a b}", "c", "%d" % rnd.randint(0, 12)]) for _ in range(len(ops) + 1)]
+            e = atoms[0] + "".join(o + a for o, a in zip(ops, atoms[1:]))
+            rs.append(rnd.choice([e, "(" + e + ")", "f(" + e + ", " + e + ")", e + " " + e]))
+        else:
+            q, _ = ugen.quantity(rnd, ug)
+            q2, _ = ugen.quantity(rnd, ug)
+            rs.append("%s %s %s to %s" % (q, rnd.choice("+-*/"), q2, ug.spell(ug.expr())))
+    rs += ["a+b^c*d+e", "1\x00+ 2", "\x00", "1 + 2\x00", "(a+b^c*d+e)", "f(a+b^c*d+e, 2)",
+           "\ufeff1 + 2", "\ufeff", "\ufeff ", "1\ufeff2", "2e+", "1E-x", "7e- 3", "-e+ 1", ".5e+", " (", " 1 to", "\t{", " f(", " 2 * (", "\u00a0(("]
     rnd.shuffle(rs)      # spread the expensive deep strings over the parallel validators
     run_strings(chk, rs, "c12-random", "random strings", chunk=1000)
     chk.cov["exhaustive"] = True
